@@ -141,7 +141,10 @@ func (p *FloatingIPPlugin) allocateIP(key string, nodeName string, pod *corev1.P
 			return nil, fmt.Errorf("failed to query floating ip by key %s: %v", key, err)
 		}
 	}
-	for _, ipInfo := range ipInfos {
+	for i, ipInfo := range ipInfos {
+		if ipInfo == nil {
+			return nil, fmt.Errorf("no ip of %s found for requested ip range %d", key, i)
+		}
 		glog.Infof("AssignIP nodeName %s, ip %s, key %s", nodeName, ipInfo.IPInfo.IP.IP.String(), key)
 		if err := p.cloudProviderAssignIP(&rpc.AssignIPRequest{
 			NodeName:  nodeName,
